@@ -32,27 +32,25 @@ func runC08(e *Engine, r *Report) {
 	smRecover := r.need("(*internal/rsm.StateMachine).Recover")
 	if compactLog != nil && commit != nil && createSS != nil && doSave != nil && recoverFn != nil && smRecover != nil {
 		n := 0
+		isEmpty := e.PkgFunc("raftpb", "IsEmptySnapshot")
 		for _, s := range e.CallerSites(compactLog) {
 			n++
 			fn := s.Parent()
 			key := "compactLog called in " + fname(fn)
-			switch fn {
-			case doSave:
-				o1, _ := e.alwaysPrecededBy(s.(ssa.Instruction), isCall(commit), 0)
-				o2, _ := e.alwaysPrecededBy(s.(ssa.Instruction), isCall(createSS), 0)
-				// not reachable from the error edges of either
-				r.check(o1 && o2 && notFromErrEdge(e, doSave, commit, s) && notFromErrEdge(e, doSave, createSS, s), "MPT-compact-after-commit", key, e.ipos(s),
-					"the log is compacted only after the snapshot is published, recorded and known to the log reader",
-					"log compaction can be requested before the snapshot it relies on is committed/recorded")
-			case recoverFn:
-				o1, _ := e.alwaysPrecededBy(s.(ssa.Instruction), isCall(smRecover), 0)
-				isEmpty := e.PkgFunc("raftpb", "IsEmptySnapshot")
-				g, _ := e.guardedOnAllPaths(s.(ssa.Instruction), reqBool("", e.callV(isEmpty), false))
-				r.check(o1 && g && notFromErrEdge(e, recoverFn, smRecover, s), "MPT-compact-after-commit", key, e.ipos(s),
-					"compaction after a recovered, non-empty snapshot", "compaction in recover is not tied to a successfully recovered snapshot")
-			default:
-				r.bad("MPT-compact-after-commit", key, e.ipos(s), "log compaction is requested from an unexpected function")
+			// role-based, not caller-name based: wherever compaction is
+			// requested, it comes after a successful publish+record of the
+			// snapshot (save path) or after a successfully recovered non-empty
+			// snapshot (recover path), possibly established in a caller.
+			si := s.(ssa.Instruction)
+			savePath := e.afterSuccessOf(si, commit, 2) && e.afterSuccessOf(si, createSS, 2)
+			recPath := false
+			if e.afterSuccessOf(si, smRecover, 2) {
+				g, _ := e.guardedOnAllPaths(si, reqBool("", e.callV(isEmpty), false))
+				recPath = g
 			}
+			r.check(savePath || recPath, "MPT-compact-after-commit", key, e.ipos(s),
+				"the log is compacted only after the snapshot is published, recorded and known to the log reader (or after a recovered, non-empty snapshot)",
+				"log compaction can be requested before/without the snapshot it relies on being committed, recorded in the log store and registered with the log reader (an exported snapshot is never recorded)")
 		}
 		r.floor("MPT-compact-after-commit", n, 2)
 	}
@@ -274,6 +272,24 @@ func runC08(e *Engine, r *Report) {
 		}
 		r.check(okOrder, "MPT-session-snapshot", "snapshotter.Load restores sessions before the user payload", e.pos(ld.Pos()), "reader order matches writer order", "sessions are no longer restored before the user payload")
 	}
+	// ---- a snapshot's session table replaces the live one
+	if ld := r.need("(*internal/rsm.lrusession).load"); ld != nil {
+		add := e.Func("(*internal/rsm.lrusession).addSessionLocked")
+		ruleRestoreReplaces(e, r, "MPT-restore-replaces", ld, r.needField("internal/rsm", "lrusession", "sessions"), func(in ssa.Instruction) bool {
+			c, ok := in.(*ssa.Call)
+			return ok && add != nil && e.CallsTo(c, add)
+		})
+	}
+	// ---- the raft core's member tables are re-created from the snapshot
+	if rr := r.need("(*internal/raft.raft).restoreRemotes"); rr != nil {
+		for _, p := range [][2]string{{"remotes", "setRemote"}, {"nonVotings", "setNonVoting"}, {"witnesses", "setWitness"}} {
+			set := e.Func("(*internal/raft.raft)." + p[1])
+			ruleRestoreReplaces(e, r, "MPT-restore-replaces", rr, r.needField("internal/raft", "raft", p[0]), func(in ssa.Instruction) bool {
+				c, ok := in.(*ssa.Call)
+				return ok && set != nil && e.CallsTo(c, set)
+			})
+		}
+	}
 }
 
 func derefNamed(t types.Type) types.Type {
@@ -286,6 +302,41 @@ func derefNamed(t types.Type) types.Type {
 // notFromErrEdge: site s is not reachable from the error edge of a call to
 // prev in fn (i.e. s runs only when prev succeeded, or returned a soft error
 // that is tested by a sentinel predicate before s).
+// afterSuccessOf: every path to site passes a call of target and site is not
+// reachable from that call's error edge; when the paths inside site's
+// function do not all pass it, the same is required of every caller.
+func (e *Engine) afterSuccessOf(site ssa.Instruction, target *ssa.Function, depth int) bool {
+	fn := site.Parent()
+	isT := func(in ssa.Instruction) bool {
+		c, ok := in.(*ssa.Call)
+		return ok && e.CallsTo(c, target)
+	}
+	res := e.findPath(fn, nil, func(in ssa.Instruction) bool { return in == site }, isT, nil)
+	if !res.Found {
+		cs, ok := site.(ssa.CallInstruction)
+		if !ok {
+			return true
+		}
+		return notFromErrEdge(e, fn, target, cs)
+	}
+	if depth == 0 {
+		return false
+	}
+	callers := e.CallerSites(fn)
+	if len(callers) == 0 {
+		return false
+	}
+	for _, cs := range callers {
+		if _, isGo := cs.(*ssa.Go); isGo {
+			return false
+		}
+		if !e.afterSuccessOf(cs.(ssa.Instruction), target, depth-1) {
+			return false
+		}
+	}
+	return true
+}
+
 func notFromErrEdge(e *Engine, fn *ssa.Function, prev *ssa.Function, s ssa.CallInstruction) bool {
 	ok := true
 	for _, ps := range e.SitesIn(fn, prev) {
